@@ -182,6 +182,11 @@ Qed.
 Lemma poly_ext : ring_eq_ext padd pmul pneg peq.
 Proof. constructor; [exact padd_proper | exact pmul_proper | exact pneg_proper]. Qed.
 
+Lemma peq_intro : forall P Q, (forall i, coef P i = coef Q i) -> peq P Q.
+Proof. intros P Q H. exact H. Qed.
+Lemma peq_elim : forall P Q, peq P Q -> forall i, coef P i = coef Q i.
+Proof. intros P Q H. exact H. Qed.
+
 (* length of the schoolbook product *)
 Lemma coef_pmul_high : forall P Q i, length P + length Q <= S i -> coef (pmul P Q) i = O_.
 Proof.
